@@ -7,6 +7,7 @@
 //	c29 marshal <force> <vers> <random> <ts> <sid> <suites> <comp> <rand> <exts>
 //	c29 parse <hex>
 //	c29 big <n> <k>          (T3 only: n ticket extensions of k bytes; message length limit 1<<24)
+//	c29 wire <sn> <fpc> <rsid> <copt> <force> … <exts>   (real client handshake, see hs.go)
 package c29
 
 import (
@@ -29,7 +30,8 @@ type extSpec struct {
 	kind string
 	strs [][]byte // sni / alpn
 	nums []uint16 // curves / sigalgs
-	data []byte   // points / ticket
+	data []byte   // points / ticket / raw (raw: the whole encoding a user-defined ClientExtension returns)
+	auto bool     // sni / ticket: Autopopulate (token "sni+…" / "ticket+:…"; only in `c29 wire` lines)
 }
 
 type cfgSpec struct {
@@ -66,6 +68,9 @@ func (e extSpec) tok() string {
 	switch e.kind {
 	case "sni", "alpn":
 		s := e.kind
+		if e.auto {
+			s += "+"
+		}
 		for _, d := range e.strs {
 			s += ":" + zv.Hex(d)
 		}
@@ -76,8 +81,12 @@ func (e extSpec) tok() string {
 			s += ":" + strconv.Itoa(int(n))
 		}
 		return s
-	case "points", "ticket":
-		return e.kind + ":" + zv.Hex(e.data)
+	case "points", "ticket", "raw":
+		k := e.kind
+		if e.auto {
+			k += "+"
+		}
+		return k + ":" + zv.Hex(e.data)
 	}
 	return e.kind
 }
@@ -113,7 +122,10 @@ func parseNums(s string, sep string) []uint16 {
 func parseExtTok(t string) extSpec {
 	p := strings.Split(t, ":")
 	e := extSpec{kind: p[0]}
-	switch p[0] {
+	if strings.HasSuffix(e.kind, "+") {
+		e.kind, e.auto = strings.TrimSuffix(e.kind, "+"), true
+	}
+	switch e.kind {
 	case "sni", "alpn":
 		for _, h := range p[1:] {
 			e.strs = append(e.strs, zv.UnHex(h))
@@ -123,7 +135,7 @@ func parseExtTok(t string) extSpec {
 			v, _ := strconv.Atoi(n)
 			e.nums = append(e.nums, uint16(v))
 		}
-	case "points", "ticket":
+	case "points", "ticket", "raw":
 		e.data = zv.UnHex(p[1])
 	}
 	return e
@@ -152,7 +164,7 @@ func (e extSpec) build() tls.ClientExtension {
 		for i, s := range e.strs {
 			d[i] = string(s)
 		}
-		return &tls.SNIExtension{Domains: d}
+		return &tls.SNIExtension{Domains: d, Autopopulate: e.auto}
 	case "alpn":
 		d := make([]string, len(e.strs))
 		for i, s := range e.strs {
@@ -176,9 +188,11 @@ func (e extSpec) build() tls.ClientExtension {
 	case "points":
 		return &tls.PointFormatExtension{Formats: e.data}
 	case "ticket":
-		return &tls.SessionTicketExtension{Ticket: e.data}
+		return &tls.SessionTicketExtension{Ticket: e.data, Autopopulate: e.auto}
 	case "sigalgs":
 		return &tls.SignatureAlgorithmExtension{SignatureAndHashes: e.nums}
+	case "raw":
+		return &rawExt{e.data}
 	}
 	panic("bad extension kind " + e.kind)
 }
@@ -578,11 +592,13 @@ func exec(line string) zv.Out {
 		return execParse(f)
 	case "big":
 		return execBig(f)
+	case "wire":
+		return execWire(f)
 	}
 	panic("bad sub-op " + f[1])
 }
 
 func init() {
 	zv.Register(&zv.Prop{ID: "C29", Topic: "c29", Gen: gen, Exec: exec, Timeout: 120 * time.Second,
-		Rule: "marshal: random ClientFingerprintConfigurations (each built-in extension type alone with in-domain and edge contents; random extension lists with duplicates and NullExtension; session id 0/32/255/256; 0..40000 suites, implemented or not, ForceSuites on/off; compression [], [0], [0,1], [1], 256 bytes; configured / fresh / timestamped random; short randomness source) through ZVFingerprintMarshal, a case is one distinct configuration line; parse: ClientHellos from the fingerprint encoder and hand-built hellos with every extension type the parser knows (valid and malformed variants), every strict prefix of some, random byte mutations, through ZVClientHelloUnmarshal; T3 = independent cryptobyte.Builder reference layout + read-back with the real parser + random/timestamp rule"})
+		Rule: "marshal: random ClientFingerprintConfigurations (each built-in extension type alone with in-domain and edge contents; random extension lists with duplicates and NullExtension; session id 0/32/255/256; 0..40000 suites, implemented or not, ForceSuites on/off; compression [], [0], [0,1], [1], 256 bytes; configured / fresh / timestamped random; short randomness source) through ZVFingerprintMarshal, a case is one distinct configuration line; parse: ClientHellos from the fingerprint encoder and hand-built hellos with every extension type the parser knows (valid and malformed variants), every strict prefix of some, random byte mutations, through ZVClientHelloUnmarshal; wire: fingerprint configurations through a real tls.Client handshake over an in-memory transport (peer: a script answering ServerHelloDone, or a real zcrypto server), the ClientHello reassembled from the first handshake record(s) the client wrote (hellos of 16..65 KiB span several records): every built-in extension type alone, every ordered pair of types, all types at once in stock order / reversed / every rotation / random permutations, random lists with duplicates and NullExtension, configurations of the marshal stream (errors: nothing may be sent), SNI and session-ticket Autopopulate with Config.ServerName empty/set and the fingerprint SessionCache absent / without key / empty / holding a session that fits or not, RandomSessionID, user-defined extensions (every type the parser knows, heartbeat, NPN, padding, GREASE, unknown), crossed with Config options set before the handshake (" + coptDoc + ") - including a Config.ClientSessionCache (empty, or holding a session) in every stream: it must not change a byte nor make the handshake panic (D42); Config.Rand pinned so the comparison is exact; T3 = independent cryptobyte.Builder reference layout + read-back with the real parser + random/timestamp rule + wire bytes == configured encoding byte for byte, record type/version/fragment sizes, nothing on the wire when the configuration is refused, ClientHello of the client's (and the server's) handshake log == configured values, real handshakes complete"})
 }
